@@ -372,31 +372,44 @@ where
         }
     }
 
-    for vertices in new_cell_vertices {
+    // Stage the new cells and collect the external facets. Until the wiring below starts nothing
+    // but the new (still unreferenced) cells has been added, so a failure here is undone by
+    // removing them again: an `Err` must leave the TDS as it was.
+    let staged = (|| -> Result<_, FlipError> {
+        for vertices in new_cell_vertices {
+            #[cfg(feature = "verif-hooks")]
+            crate::verif_failpoints::hit::<FlipError>("flip.cell_new")?;
+            let cell = Cell::new(vertices, None)?;
+            let cell_key =
+                tds.insert_cell_with_mapping(cell)
+                    .map_err(|e| FlipError::TdsMutation {
+                        message: e.to_string(),
+                    })?;
+            new_cells.push(cell_key);
+        }
+
         #[cfg(feature = "verif-hooks")]
-        crate::verif_failpoints::hit::<FlipError>("flip.cell_new")?;
-        let cell = Cell::new(vertices, None)?;
-        let cell_key = tds
-            .insert_cell_with_mapping(cell)
-            .map_err(|e| FlipError::TdsMutation {
-                message: e.to_string(),
+        crate::verif_failpoints::hit::<FlipError>("flip.boundary")?;
+        let boundary_facets =
+            extract_cavity_boundary(tds, removed_cells).map_err(|e| FlipError::NeighborWiring {
+                message: format!("flip boundary extraction failed: {e}"),
             })?;
-        new_cells.push(cell_key);
-    }
 
-    #[cfg(feature = "verif-hooks")]
-    crate::verif_failpoints::hit::<FlipError>("flip.boundary")?;
-    let boundary_facets =
-        extract_cavity_boundary(tds, removed_cells).map_err(|e| FlipError::NeighborWiring {
-            message: format!("flip boundary extraction failed: {e}"),
-        })?;
-
-    #[cfg(feature = "verif-hooks")]
-    crate::verif_failpoints::hit::<FlipError>("flip.external")?;
-    let external_facets = external_facets_for_boundary(tds, removed_cells, &boundary_facets)
-        .map_err(|e| FlipError::NeighborWiring {
-            message: e.to_string(),
-        })?;
+        #[cfg(feature = "verif-hooks")]
+        crate::verif_failpoints::hit::<FlipError>("flip.external")?;
+        external_facets_for_boundary(tds, removed_cells, &boundary_facets).map_err(|e| {
+            FlipError::NeighborWiring {
+                message: e.to_string(),
+            }
+        })
+    })();
+    let external_facets = match staged {
+        Ok(external_facets) => external_facets,
+        Err(e) => {
+            tds.remove_cells_by_keys(&new_cells);
+            return Err(e);
+        }
+    };
 
     #[cfg(feature = "verif-hooks")]
     crate::verif_failpoints::hit::<FlipError>("flip.wire")?;
